@@ -3,6 +3,7 @@
 package benchseries
 
 import (
+	"regexp"
 	"encoding/json"
 	"fmt"
 	"math"
@@ -79,6 +80,20 @@ func quietOptions() *BuilderOptions {
 	return o
 }
 
+// maskMixed replaces, in a dump of the implementation's answer, the baseline
+// hash of every series the reference marks with "?" (trials with and without
+// a baseline) by "?".
+func maskMixed(dump, ref string) string {
+	for _, m := range mixedRE.FindAllStringSubmatch(ref, -1) {
+		dump = strings.ReplaceAll(dump, m[1]+"/d1", m[1]+"/?")
+		dump = strings.ReplaceAll(dump, m[1]+"/ ", m[1]+"/? ")
+		dump = strings.ReplaceAll(dump, m[1]+"/]", m[1]+"/?]")
+	}
+	return dump
+}
+
+var mixedRE = regexp.MustCompile(`([^ \[\]]+=[^ /]+)/\?`)
+
 // dumpSeries renders the comparison series canonically.
 func dumpSeries(css []*ComparisonSeries) string {
 	var b strings.Builder
@@ -139,6 +154,7 @@ func refSeries(pool []c18Res, dupeHow int) string {
 	for _, u := range us {
 		benches, sers := map[string]bool{}, map[string]bool{}
 		hash := map[string]string{}
+		withDen, withoutDen := map[string]bool{}, map[string]bool{}
 		type trialKey struct{ bench, exp string }
 		num := map[trialKey]map[string][]float64{} // per hash
 		den := map[trialKey][]float64{}
@@ -169,9 +185,30 @@ func refSeries(pool []c18Res, dupeHow int) string {
 		}
 		bl, sl := keysOf(benches), keysOf(sers)
 		fmt.Fprintf(&b, "unit %q benchmarks %q series %q\n", u, bl, sl)
+		// the baseline hash of a series point is that of the trials measuring it
+		for tk := range trials {
+			for _, r := range pool {
+				if _, ok := r.Values[u]; ok && r.Role != "baseline" && r.Bench == tk.bench && r.Exp == tk.exp {
+					if hasDen[tk] {
+						withDen[normDate(r.Stamp)] = true
+					} else {
+						withoutDen[normDate(r.Stamp)] = true
+					}
+				}
+			}
+		}
 		var hp []string
 		for s, h := range hash {
-			hp = append(hp, fmt.Sprintf("%s=%s/d1", s, h))
+			switch {
+			case withDen[s] && withoutDen[s]:
+				// some trials of this series have a baseline and some have none:
+				// decided by the map-order exploration, masked elsewhere
+				hp = append(hp, fmt.Sprintf("%s=%s/?", s, h))
+			case withDen[s]:
+				hp = append(hp, fmt.Sprintf("%s=%s/d1", s, h))
+			default:
+				hp = append(hp, fmt.Sprintf("%s=%s/", s, h))
+			}
 		}
 		sort.Strings(hp)
 		fmt.Fprintf(&b, " hashpairs %v\n", hp)
@@ -255,7 +292,7 @@ func c18Orders(c *mc.Check, n int) {
 		if err != nil {
 			return err.Error()
 		}
-		if want := refSeries(p, cs.Dupe); got != want {
+		if want := refSeries(p, cs.Dupe); maskMixed(got, want) != want {
 			return fmt.Sprintf("order %v policy %d:\n%s\nexpected (set semantics):\n%s", cs.Order, cs.Dupe, got, want)
 		}
 		return ""
@@ -282,7 +319,7 @@ func c18Orders(c *mc.Check, n int) {
 				if i > 0 {
 					l.Nontrivial++
 				}
-				if err != nil || got != want[dupe] {
+				if err != nil || maskMixed(got, want[dupe]) != want[dupe] {
 					l.Outcome("differs")
 					c.Fail(f, "insertion-order", c18Case{Pool: n, Order: orders[i], Dupe: dupe}, fmt.Sprintf("order %v policy %d (err %v):\n%s\nexpected (set semantics):\n%s", orders[i], dupe, err, got, want[dupe]))
 				} else {
@@ -533,10 +570,22 @@ func c18Dates(c *mc.Check) {
 	f.Done()
 }
 
+// c18SchedOnly is set by the file that is only part of the instrumented build.
+var c18SchedOnly func(c *mc.Check)
+
 func TestVerifC18(t *testing.T) {
 	c := mc.NewCheck("C18")
 	c.Assume("set-semantics reference in the harness; pools keep hash ↔ series stamp bijective and experiments' normalised stamps distinct (the property defines no winner otherwise)")
+	if c18SchedOnly != nil {
+		// the instrumented build only explores map iteration orders
+		c18SchedOnly(c)
+		if code := c.Finish(); code != 0 {
+			os.Exit(code)
+		}
+		return
+	}
 	c18Orders(c, mc.Pick(c, 8, 9))
+	c18Histories(c, mc.Pick(c, 3, 4))
 	c18Files(c)
 	c18Bootstrap(c, mc.Pick(c, 4, 5))
 	c18Dates(c)
